@@ -173,6 +173,8 @@ def request(case):
     r = {"op": "gin", "variant": case["variant"], "max_turns": case.get("max_turns"), "deck": case["deck"],
          "discard": case["discard"], "p1": case["p1"], "p2": case["p2"], "turn": case["turn"],
          "shuffle": case.get("shuffle", [0, 0]), "ops": case["ops"]}
+    if case.get("hud0") == "empty":
+        r["hud0"] = []          # the game starts from an explicitly empty public card map (model: newGameWith … (some []))
     return r
 
 
